@@ -95,8 +95,19 @@ func GenMetricDataN(t *rapid.T, maxRecs int, ambiguousLabels bool, variedUnwrap 
 			{{"a": ""}, {"b": "a"}},
 			{{"a": "", "ab": ""}, {"b": "", "ba": ""}},
 			{{"a": "", "ab": "x"}, {"ab": "x", "b": ""}},
+			// a value that spells the next pair in the usual textual renderings of a label set
+			{{"a": "x b:y"}, {"a": "x", "b": "y"}},
+			{{"a": "x, b=y"}, {"a": "x", "b": "y"}},
+			{{"a": "x,b=y"}, {"a": "x", "b": "y"}},
+			{{"a": "x\",b=\"y"}, {"a": "x", "b": "y"}},
+			{{"a": "x\", b=\"y"}, {"a": "x", "b": "y"}},
+			{{"a": "x b=y"}, {"a": "x", "b": "y"}},
 		}
 		pair := rapid.SampledFrom(pairs).Draw(t, "pair")
+		if rapid.IntRange(0, 2).Draw(t, "spelling-pair") == 0 {
+			// the last six: a value that spells the next pair
+			pair = pairs[len(pairs)-6+rapid.IntRange(0, 5).Draw(t, "spelling-pair-index")]
+		}
 		d.GroupLabels = []string{"a", "ab", "b", "ba"}
 		base := templates[0]
 		templates = templates[:0]
